@@ -52,10 +52,11 @@ const (
 	SecThreeSet        // T<r>.P.X = 1                             store through a nil pointer on a three-level name
 	SecLocObj          // lo = H.Obj(r) ; lo.Ping(r)               a method called on an object kept in a local
 	SecLocObjReader    // lo.Ping(r) without assigning lo          must fail
+	SecLocAlias        // la = AL.Base; la += r; lb = ALQ[0]; lb *= 3; H.Alias(...)   locals bound from injected slots, then updated in place
 	numSecKinds
 )
 
-var secNames = [...]string{"Y", "Call", "AsgCall", "AsgKind", "Div", "Idx", "Nil", "Unknown", "Arg", "IfKind", "IfIdx", "IfNil", "Elif", "ForKind", "ForStep", "Unb", "UnbCont", "Conc", "Local", "Reader", "Stop", "ShW", "ShR", "Upd", "Echo", "Opt", "IfCall", "ForRange", "MapIdx", "SetKind", "SetNil", "RangeKey", "ThreeNil", "IfThreeNil", "ArgCount", "NilMapSet", "FuncCall", "IfFunc", "ThreeSet", "LocObj", "LocObjReader"}
+var secNames = [...]string{"Y", "Call", "AsgCall", "AsgKind", "Div", "Idx", "Nil", "Unknown", "Arg", "IfKind", "IfIdx", "IfNil", "Elif", "ForKind", "ForStep", "Unb", "UnbCont", "Conc", "Local", "Reader", "Stop", "ShW", "ShR", "Upd", "Echo", "Opt", "IfCall", "ForRange", "MapIdx", "SetKind", "SetNil", "RangeKey", "ThreeNil", "IfThreeNil", "ArgCount", "NilMapSet", "FuncCall", "IfFunc", "ThreeSet", "LocObj", "LocObjReader", "LocAlias"}
 
 // FaultCapable reports whether a section hosts a fault point.
 func FaultCapable(k int) bool {
@@ -135,7 +136,7 @@ func (r *RuleDef) YieldKs() []int {
 		case SecY:
 			ks = append(ks, yk)
 			yk++
-		case SecRangeKey, SecLocObj:
+		case SecRangeKey, SecLocObj, SecLocAlias:
 			ks = append(ks, yk)
 			yk++
 		case SecIfFunc:
@@ -255,6 +256,9 @@ func (r *RuleDef) Render() string {
 			yk++
 		case SecLocObjReader:
 			fmt.Fprintf(&b, "H.B(%d,%d)\nlo.Ping(%d)\n", id, p, id)
+		case SecLocAlias:
+			fmt.Fprintf(&b, "la = AL.Base\nla += %d\nlb = ALQ[0]\nH.Y(%d,%d)\nlb *= 3\nH.Alias(%d, la, lb, AL.Base, ALQ[0])\n", id, id, yk, id)
+			yk++
 		case SecRangeKey:
 			fmt.Fprintf(&b, "forRange x := MM%d {\nH.Y(%d,%d)\nH.KeyIs(%d, x)\n}\n", id, id, yk, id)
 			yk++
